@@ -252,6 +252,12 @@ def run_case(case, name):
 
     def bound_of(c):
         """the bound of a run command; ["runupto", t, "int"] passes a Python int also on a float / Duration-free clock"""
+        if free and len(c) > 2 and c[1] != "nan":
+            if c[2] == "int" and ck == "float" and float(c[1]) == int(c[1]):
+                return int(c[1])                                   # an int bound on the float clock
+            if c[2] == "min" and ck == "dur" and float(c[1]) % 60 == 0:
+                return Duration(float(c[1]) / 60.0, "min")         # a Duration bound in another unit (exact: whole minutes)
+            return to_time(c[1])
         if len(c) > 2 and c[2] == "int" and c[1] != "nan" and c[1] % DEN == 0 and ck in ("float", "fint"):
             return c[1] // DEN
         return to_time(c[1])
